@@ -343,6 +343,15 @@ func listDir(shardDir string) (ents []rawEnt, logs int) {
 	return ents, len(es)
 }
 
+func visKey(v []rawEnt) string {
+	var l []string
+	for _, e := range v {
+		l = append(l, fmt.Sprintf("%s/%v/%s", e.Name, e.Init, e.Hash))
+	}
+	sort.Strings(l)
+	return strings.Join(l, " ")
+}
+
 // ---------- intent-log decoding (independent of the repository's unmarshal) ----------
 
 func parseLog(b []byte) (name string, isOrder bool, old, nw []string, ok bool) {
@@ -411,6 +420,7 @@ type caseCtx struct {
 	nimg     int
 	quick    bool
 	readers  bool
+	fullSelf bool
 }
 
 func (c *caseCtx) genValue(f fieldDef) string {
@@ -456,11 +466,17 @@ func (c *caseCtx) flushKind(maxT *int64, kind int) {
 		flds = []fieldDef{c.fields[c.r.Intn(len(c.fields))]}
 	}
 	mode := c.r.Intn(10) // 0-5 fresh, 6-7 mixed, 8-9 old only
-	if kind != 0 {
+	if kind == 1 || kind == 2 {
 		mode = 0
+	}
+	if kind == 3 {
+		mode = 6 // every series gets fresh and late rows: an ordered and an out-of-order file with the same sequence
 	}
 	for sid := range sids {
 		n := c.r.Range(1, 12)
+		if kind == 3 {
+			n = c.r.Range(6, 12)
+		}
 		if c.r.Chance(1, 8) {
 			n = c.r.Range(20, 45) // many segments
 		}
@@ -679,6 +695,23 @@ func (c *caseCtx) runOp(op string, emit func(*Instance)) {
 		err = c.st.FullCompact(1)
 	case "merge":
 		err = c.st.MergeOutOfOrder(1, false, true)
+	case "merge1":
+		// out-of-order merge limited to one input file per run (max-unordered-file-number = 1)
+		sc := config.GetStoreConfig()
+		saved := sc.Merge.MaxUnorderedFileNumber
+		sc.Merge.MaxUnorderedFileNumber = 1
+		err = c.st.MergeOutOfOrder(1, false, true)
+		c.st.Wait()
+		sc.Merge.MaxUnorderedFileNumber = saved
+	case "mergeself":
+		// out-of-order files merged among themselves (non-default configuration merge-self-only)
+		sc := config.GetStoreConfig()
+		saved, savedN := sc.Merge.MergeSelfOnly, immutable.LevelMergeFileNum
+		sc.Merge.MergeSelfOnly = true
+		immutable.LevelMergeFileNum = []int{2, 2}
+		err = c.st.MergeOutOfOrder(1, c.fullSelf, false)
+		c.st.Wait()
+		sc.Merge.MergeSelfOnly, immutable.LevelMergeFileNum = saved, savedN
 	}
 	c.st.Wait()
 	c.rec.Stop()
@@ -983,7 +1016,7 @@ func (c *caseCtx) analyse(op string, events []*crashfs.Event, pend []pendingImag
 				c.fillImage(&sub, r2, before, sd, nm, toEnts, normalise)
 				// idempotence on the implementation: a third start changes nothing
 				r3 := c.reopen(sd, false)
-				if fmt.Sprint(r3.vis) != fmt.Sprint(r2.vis) || dumpDiff(r2.dump, r3.dump) != "" {
+				if visKey(r3.vis) != visKey(r2.vis) || dumpDiff(r2.dump, r3.dump) != "" {
 					sub.Fail = append(sub.Fail, "restarting twice gives different files/answers")
 				}
 				inst.Images = append(inst.Images, sub)
@@ -1024,6 +1057,9 @@ func runCase(idx int, r *gen.Rand, work string, rec *crashfs.Recorder, quick boo
 	// the segment size is a package-level setting of the store (merge reads the global one)
 	immutable.SetMaxRowsPerSegment4TsStore(gen.Pick(r, []int{8, 16, 1000}))
 	c.conf = immutable.NewTsStoreConfig()
+	if os.Getenv("C03_SEGLIMIT") != "" {
+		c.conf.SetMaxSegmentLimit(gen.Pick(r, []int{2, 3, 5}))
+	}
 	c.nSeries = r.Range(1, 4)
 	nf := r.Range(1, len(fieldPool))
 	perm := []int{0, 1, 2, 3}
@@ -1042,13 +1078,24 @@ func runCase(idx int, r *gen.Rand, work string, rec *crashfs.Recorder, quick boo
 	c.st = newStore(c.shardDir, c.conf)
 	c.st.CompactionEnable()
 	maxT := int64(100)
-	program := r.Intn(8)
+	program := r.Intn(11)
+	if idx == 0 {
+		program = 10 // first case: limited merge, flush, merge-self (name collision between the two directories)
+	}
+	if os.Getenv("C03_MERGESELF") != "" {
+		program = 8 + r.Intn(3)
+	}
 	c.readers = r.Chance(1, 3)
 	nfl := r.Range(minGroup, minGroup+3)
 	if nfl >= 2*minGroup && !r.Chance(1, 6) {
 		nfl = 2*minGroup - 1 // a single compaction plan; otherwise two plans run concurrently (direct oracle only)
 	}
-	if program >= 6 {
+	c.fullSelf = program == 10 || r.Bool()
+	if program == 10 {
+		c.flushKind(&maxT, 1)
+		c.flushKind(&maxT, 3)
+		c.flushKind(&maxT, 3)
+	} else if program >= 6 {
 		// several ordered files sharing series, then out-of-order data NEWER than everything ordered (flushed without a
 		// loaded sequencer), then the merge: no ordered file overlaps or follows the out-of-order time range
 		nfl = r.Range(2, 5)
@@ -1069,6 +1116,12 @@ func runCase(idx int, r *gen.Rand, work string, rec *crashfs.Recorder, quick boo
 		ops = []string{"merge"}
 	case 7:
 		ops = []string{"merge", "flush", "level0", "full"}
+	case 10:
+		ops = []string{"merge1", "flush3", "mergeself"}
+	case 8:
+		ops = []string{"mergeself"}
+	case 9:
+		ops = []string{"level0", "mergeself", "merge"}
 	case 0:
 		ops = []string{"level0"}
 	case 1:
@@ -1085,6 +1138,10 @@ func runCase(idx int, r *gen.Rand, work string, rec *crashfs.Recorder, quick boo
 	for _, op := range ops {
 		if op == "flush" {
 			c.flush(&maxT)
+			continue
+		}
+		if op == "flush3" {
+			c.flushKind(&maxT, 3)
 			continue
 		}
 		c.runOp(op, emit)
